@@ -28,7 +28,8 @@ _spec.loader.exec_module(vc)
 
 FUEL = 3000000
 # requests that are malformed at the protocol level: they must end in an error reply or a closed connection
-MALFORMED = ("wrong_version", "unknown_type", "unknown_type_payload", "len_over_max", "len_huge", "len_zero", "non_module",
+MALFORMED = ("wrong_version", "unknown_type", "unknown_type_payload", "len_over_max", "len_huge", "len_over_max_hold", "len_huge_hold",
+             "len_zero", "non_module",
              "garbage", "trunc_half_shutwr")
 _VLOCK = threading.RLock()
 
@@ -402,7 +403,7 @@ class Lane:
     def judge(self, sym, r, exp, died, seqdesc):
         """Record the outcome class; report what the property forbids.  Returns a trouble string or None."""
         st = self.st
-        oc = ("exc" if r.exc else "timeout" if r.timeout else
+        oc = ("not-ended" if r.lost else "exc" if r.exc else "timeout" if r.timeout else
               "error:" + r.errors[0].decode("utf-8", "replace")[:40].split("\n")[0] if r.errors and r.exit_code is None else
               "exit=%s%s" % (r.exit_code, "+error" if r.errors else "") if r.exit_code is not None else
               "pong" if r.pong else "status" if r.status is not None else
@@ -413,6 +414,13 @@ class Lane:
             h[oc] = h.get(oc, 0) + 1
         if died:
             return None                                        # collateral of the daemon death, judged there
+        if r.lost and sym in MALFORMED:
+            # "a malformed message (... oversized or inconsistent length ...) ends the offending session with an error reply or a
+            # closed connection" - not only once the client gives up
+            _violation(self.ctx, "malformed-not-ended|" + sym.replace("_hold", ""),
+                       "the malformed request `%s` in the sequence [%s] was neither answered with an error nor closed: %s"
+                       % (sym, seqdesc, r.lost))
+            return None
         if r.exc or r.timeout:
             return "%s: exc=%s timeout=%s" % (sym, r.exc, r.timeout)
         if exp[0] in ("equal", "equal-upto-exit"):
@@ -1080,8 +1088,9 @@ def _run(ctx, fl, sc, lanes):
 
     # bursts: long runs of sessions that fail while / right after the header is read, interleaved with small well-formed
     # execs on 8 connections (descriptor turnover: every failed session closes its socket while others are being accepted)
-    burst_alpha = ["short_header", "wrong_version", "garbage", "header_only", "trunc_0", "len_over_max", "exec:hello", "exec:count", "ping"]
-    burst_w = [2, 2, 1, 2, 1, 1, 3, 2, 1]
+    burst_alpha = ["short_header", "wrong_version", "garbage", "header_only", "trunc_0", "len_over_max", "exec:hello", "exec:count", "ping",
+                   "len_over_max_hold", "len_huge_hold"]
+    burst_w = [2, 2, 1, 2, 1, 1, 3, 2, 1, 0.5, 0.5]
     bursts = []
     for b in range(ctx.n(18, 120)):
         rng = ctx.rng("burst", b)
